@@ -19,10 +19,12 @@ fn main() -> ExitCode {
         "C02" => rosu_verif::c02::run(tier, seed, only),
         "C03" => rosu_verif::c03::run(tier, seed, only),
         "C04" => rosu_verif::c04::run(tier, seed, only),
+        "C06" => rosu_verif::c06::run(tier, seed, only),
         "C07" => rosu_verif::c07::run(tier, seed, only),
         "C14" => rosu_verif::c14::run(tier, seed, only),
         "C15" => rosu_verif::c15::run(tier, seed, only),
         "C18" => rosu_verif::c18::run(tier, seed, only),
+        "C19" => rosu_verif::c19::run(tier, seed, only),
         _ => {
             eprintln!("unknown property {prop}");
             return ExitCode::from(2);
